@@ -8,6 +8,7 @@ import stubs
 from pydrobert.speech.compute import frame_by_frame_calculation
 
 TOKBASE = 1000
+_LAYOUT_TICK = 0
 OFFS = 0.25  # sample value of token t is t + 0.25: junk memory is very unlikely to decode
 
 
@@ -64,7 +65,9 @@ class Recorder:
     def _arr(self, u, start, n):
         # the samples arrive in varying memory layouts (strided views, byte-swapped, ...): same values, same frames
         import common
-        x = common.relayout(signal(u, start, n), common.LAYOUTS[(u + start + n) % len(common.LAYOUTS)])
+        global _LAYOUT_TICK
+        _LAYOUT_TICK += 1  # (a running counter: every configuration / call kind / length meets every layout)
+        x = common.relayout(signal(u, start, n), common.LAYOUTS[_LAYOUT_TICK % len(common.LAYOUTS)])
         if self.readonly:
             x.flags.writeable = False
         return x
